@@ -73,7 +73,10 @@ def sfield(prog, state, name):
 
 
 def native_ops(ts, diffs, thr=2, extra=(), net='regtest', coinbase=True):
-    ops = [dict(op='init', network=net, threshold=thr, anchor=dict(id=1, difficulty=str(diffs[1])))]
+    anchor = dict(id=1, difficulty=str(diffs[1]))
+    if coinbase:
+        anchor['coinbase'] = [[7, 1001]]
+    ops = [dict(op='init', network=net, threshold=thr, anchor=anchor)]
     for k, p in enumerate(ts.parents):
         i = k + 2
         o = dict(op='push', id=i, parent=p, difficulty=str(diffs[i]))
@@ -226,6 +229,13 @@ def settle(rep, prop, cands, confirm, known, cap=8, describe=None):
             rep.inconclusive = 'vacuity: %s %s' % (key, cs[0].get('parents'))
             continue
         verdicts = {}
+        # replay the structurally simplest counterexamples first (fork-free, then small): a listed finding that needs a
+        # fork can then never hide a new violation that also occurs without one
+        def simplicity(c):
+            par = c.get('shape', (None, []))[1]
+            leaves = len(par) + 1 - len(set(par)) if par else 1
+            return (leaves, len(par))
+        cs = sorted(cs, key=simplicity)
         for c in cs[:cap]:
             v, doc = confirm(c, known)
             rep.cov['traces_validated_against_impl'] += 1
